@@ -828,7 +828,11 @@ func (r *Reconciler) applyRollback(ctx context.Context, transaction *configapi.T
 		log.Infof("Updating applied index for Configuration '%s' to %d in term %d", configuration.ID, transaction.ID.Index, configuration.Applied.Term)
 		configuration.Applied.Index = transaction.ID.Index
 		configuration.Applied.Ordinal = transaction.Status.Rollback.Ordinal
-		configuration.Applied.Revision = configapi.Revision(transaction.Status.Rollback.Index)
+		// The applied revision only moves back: a rollback of a change that never reached the target (its apply was
+		// aborted) must not declare the revision it was committed on applied.
+		if configuration.Applied.Revision > configapi.Revision(transaction.Status.Rollback.Index) {
+			configuration.Applied.Revision = configapi.Revision(transaction.Status.Rollback.Index)
+		}
 		if configuration.Applied.Values == nil {
 			configuration.Applied.Values = make(map[string]configapi.PathValue)
 		}
